@@ -183,6 +183,15 @@ BODY_CONTENT = {
     "octet": {"application/octet-stream": {"schema": {"type": "string", "format": "binary"}}},
     "two": {"application/json": {"schema": _ref("M")}, "multipart/form-data": {"schema": _ref("UploadM")}},
 }
+JSON_KINDS = ("json_model", "json_prim", "json_array", "json_map")
+
+
+def body_ctype_of(body: dict) -> str:
+    """The declared request content type of a single-content body."""
+    k = body["kind"]
+    if k == "other":
+        return body["media"]
+    return {"form": "application/x-www-form-urlencoded", "multipart": "multipart/form-data", "octet": "application/octet-stream"}.get(k, "application/json")
 
 
 def path_template(op: dict) -> str:
@@ -194,8 +203,10 @@ def param_node(p: dict) -> dict:
 
 
 def document(ops: list[dict], own_tags: bool = False) -> dict:
-    """own_tags: one tag (= one endpoints module) per operation."""
+    """own_tags: one tag (= one endpoints module) per operation.  Operations with the same `item` share one path item (and its
+    path-level parameters, rendered inline or through components/parameters, before or after the method keys)."""
     paths: dict[str, Any] = {}
+    comp_params: dict[str, Any] = {}
     for op in ops:
         node: dict[str, Any] = {"operationId": "op_" + op["id"], "tags": ["t" + op["id"] if own_tags else "t"], "responses": {"200": {"description": "ok", "content": {"application/json": {"schema": _ref("R")}}}}}
         pl = [param_node(p) for p in op["params"] if p["level"] == "path"]
@@ -203,16 +214,26 @@ def document(ops: list[dict], own_tags: bool = False) -> dict:
         if ol:
             node["parameters"] = ol
         if op["body"]["kind"] != "none":
-            content = BODY_CONTENT[op["body"]["kind"]]
+            content = BODY_CONTENT.get(op["body"]["kind"]) or {op["body"]["media"]: {"schema": {"type": "string", "format": "binary"}}}
             if op["body"]["kind"] == "json_prim":
                 content = {"application/json": {"schema": {"type": {"int": "integer", "bool": "boolean"}.get(op["body"].get("ptype", ""), "string")}}}
             node["requestBody"] = {"required": bool(op["body"]["required"]), "content": content}
-        item: dict[str, Any] = {}
-        if pl:
-            item["parameters"] = pl
+        if pl and op.get("pref"):
+            for n, pn in enumerate(pl):
+                comp_params[f"P{op.get('item', op['id'])}n{n}"] = pn
+            pl = [{"$ref": f"#/components/parameters/P{op.get('item', op['id'])}n{n}"} for n in range(len(pl))]
+        item = paths.setdefault(path_template(op), {})
+        item.pop("parameters", None)
+        if pl and not op.get("pafter"):
+            item = {"parameters": pl, **item}
         item[op["method"].lower()] = node
+        if pl and op.get("pafter"):
+            item["parameters"] = pl
         paths[path_template(op)] = item
-    return {"openapi": "3.0.3", "info": {"title": "Wire", "version": "1.0.0"}, "paths": paths, "components": {"schemas": COMPONENTS}}
+    comps: dict[str, Any] = {"schemas": COMPONENTS}
+    if comp_params:
+        comps["parameters"] = comp_params
+    return {"openapi": "3.0.3", "info": {"title": "Wire", "version": "1.0.0"}, "paths": paths, "components": comps}
 
 
 # ---------------------------------------------------------------------------------------------
@@ -309,7 +330,7 @@ def bind_signature(op: dict, sig: list[list], calls: list[dict] = ()) -> list[di
         if kind == "two":
             ctype = "multipart/form-data" if "IO[" in ann else "application/json"
         else:
-            ctype = {"json_model": "application/json", "json_prim": "application/json", "json_array": "application/json", "json_map": "application/json", "form": "application/x-www-form-urlencoded", "multipart": "multipart/form-data", "octet": "application/octet-stream"}[kind]
+            ctype = body_ctype_of(op["body"])
         out[j] = {"py": name, "role": "body", "target": 0, "ctype": ctype, "opt": bool(has_default)}
         rest.remove(j)
     for j in rest:  # position
@@ -340,7 +361,7 @@ def arg_record(entry: dict, op: dict, value: Any) -> dict:
         return {"sup": True, "leaves": [leaf(x, typ) for x in xs], "canon": canon(value)}
     if entry["role"] == "body":
         ct = entry["ctype"]
-        if ct == "application/octet-stream" and isinstance(value, str):
+        if ct not in ("application/json", "application/x-www-form-urlencoded", "multipart/form-data") and isinstance(value, str):  # a bytes carrier
             try:
                 return {"sup": True, "leaves": [], "canon": base64.b64decode(value).decode("utf-8", "replace")}
             except Exception:  # noqa: BLE001
@@ -694,15 +715,19 @@ def observe_ops(chk: Check, scen: list[dict]) -> tuple[list[tuple[dict, list[dic
     # packing (hints from the model, nothing depends on them being right): operations predicted not to compile go together, one
     # endpoints module each, and are only compiled; operations predicted never to send are spread one per package so that they
     # can be identified by elimination; a wrong hint sends the operation to the second round (a package of its own)
-    deads = [s["op"] for s in scen if s.get("dead")]
-    mute = [s["op"] for s in scen if not s.get("dead") and s.get("raises")]
-    normal = [s["op"] for s in scen if not s.get("dead") and not s.get("raises")]
-    npk = max(-(-(len(mute) + len(normal)) // PACK), len(mute), 1)
+    # the packing unit is the PATH ITEM: operations that share one stay in one document
+    units: dict[str, list[dict]] = {}
+    for s in scen:
+        units.setdefault(s["op"].get("item", s["op"]["id"]), []).append(s)
+    deads = [u[0]["op"] for u in units.values() if len(u) == 1 and u[0].get("dead")]
+    mute = [[s["op"] for s in u] for u in units.values() if not (len(u) == 1 and u[0].get("dead")) and any(s.get("raises") or s.get("dead") for s in u)]
+    normal = [[s["op"] for s in u] for u in units.values() if not any(s.get("raises") or s.get("dead") for s in u)]
+    npk = max(-(-(sum(map(len, mute)) + sum(map(len, normal))) // PACK), len(mute), 1)
     live: list[list[dict]] = [[] for _ in range(npk)]
-    for n, op in enumerate(mute):
-        live[n].append(op)
-    for n, op in enumerate(normal):
-        live[n % npk].append(op)
+    for n, u in enumerate(mute):
+        live[n] += u
+    for n, u in enumerate(normal):
+        live[n % npk] += u
     live = [g for g in live if g]
     groups = live + [deads[i : i + PACK] for i in range(0, len(deads), PACK)]
     compile_only = set(range(len(live), len(groups)))
@@ -724,7 +749,8 @@ def observe_ops(chk: Check, scen: list[dict]) -> tuple[list[tuple[dict, list[dic
                 edir = Path(rec["job"]["root"]).joinpath(*rec["job"]["pkg"].split("."), "endpoints")
                 texts = {str(f.relative_to(rec["job"]["root"])): f.read_text() for f in edir.glob("*.py") if f.name != "__init__.py"} if edir.exists() else {}
                 for opid, op in ops.items():
-                    files = [f for f, t in texts.items() if f'/{opid}"' in t or f"/{opid}/" in t]
+                    lit = op.get("item", opid)
+                    files = [f for f, t in texts.items() if f'/{lit}"' in t or f"/{lit}/" in t]
                     if len(files) == 1 and files[0] in errs:
                         stats["unimportable"][import_msgclass("SyntaxError", errs[files[0]]["msg"])] += 1
                     else:
@@ -760,11 +786,18 @@ def observe_ops(chk: Check, scen: list[dict]) -> tuple[list[tuple[dict, list[dic
             for c in wire:
                 by_method.setdefault((c["prop"], c["method"]), []).append(c)
             ident: dict[tuple[str, str], str] = {}
+            by_item: dict[str, dict[str, str]] = {}
+            for opid, op in ops.items():
+                by_item.setdefault(op.get("item", opid), {})[op["method"]] = opid
             for key, calls in by_method.items():
-                firsts = {unquote(rq["path"]).strip("/").split("/")[0] for c in calls for rq in c["requests"]}
-                hit = [f for f in firsts if f in ops]
-                if len(hit) == 1 and len(firsts) == 1:
-                    ident[key] = hit[0]
+                # (method, path) of the requests the method sends; a path item with one operation is identified by the path alone
+                sent = {(rq["method"], unquote(rq["path"]).strip("/").split("/")[0]) for c in calls for rq in c["requests"]}
+                hit = set()
+                for m, first in sent:
+                    sib = by_item.get(first)
+                    hit.add(None if not sib else next(iter(sib.values())) if len(sib) == 1 else sib.get(m))
+                if len(hit) == 1 and None not in hit and next(iter(hit)) not in ident.values():
+                    ident[key] = next(iter(hit))
             left_m = [k for k in by_method if k not in ident]
             left_o = [i for i in ops if i not in ident.values()]
             if len(left_m) == 1 and len(left_o) == 1 and len(by_method) == len(ops):
@@ -803,7 +836,9 @@ def run(chk: Check) -> None:
         "TLC (Gen_Wire.tla) enumerates one operation per scenario: method {GET,POST,PUT,PATCH,DELETE}; 1-3 (thorough 1-4) parameters from "
         "(location x required) {path, query R/O, header R/O, cookie R/O} x type {str,int,bool,enum($ref),date,datetime,array-of-str} x name "
         "shape {limit, page-size, pageSize, class, url, params, headers, body, id} x declared at path level / operation level; body {none, "
-        "JSON model, JSON primitive, JSON array, form, multipart, octet, two content types}.  Deterministic stratified selection: A single "
+        "JSON model, JSON primitive (str/int/bool), JSON array of models, JSON free-form object, form, multipart, octet, any other media type (text/csv, "
+        "application/xml, image/png, application/pdf, text/plain, application/vnd.x+json), two content types}; G path items shared by 2-3 operations "
+        "(two path-level parameters; rendered inline / by $ref, before / after the method keys).  Deterministic stratified selection: A single "
         "parameters with (a+b+c)%3=0 (every pair of dimensions), B one parameter x every body kind, C pairs of (loc/req, shape) with sum%4=0, "
         "D triples over three different loc/req kinds with an orthogonal-array third shape, names folding differently and sum%6=0, E a path-level "
         "parameter repeated at operation level; thorough: A complete, B x6, C all pairs x3, D all x4, E x every type, F quadruples x8.  Every method is called with "
